@@ -307,6 +307,23 @@ def worker_scenario(rng, size='quick', **over):
         lines += ['wait 260', 'nomodel', f'force slow:{rng.choice([900, 1300])} @nodrain', 'flood 1024',
                   f'w {keys[0]} 9 - 5 77', 'states', 'quiesce', 'states', 'alive', 'settle', 'close', 'open', 'states', 'counts']
         return lines
+    if y < 0.13:
+        # E22 shape: the dump task of a deferred dump stalls on the first blob, a second delete (re-registering a
+        # deferred dump) lands while it is stalled, the task stalls again on the next blob past the deadline: the
+        # re-registered dump must still be carried out without any further request
+        lines = [line.replace(f'maxdata={maxdata}', 'maxdata=1000000').replace('rt=ct', 'rt=mt') + ' defer=100,300', 'states']
+        ks = keys[:3]
+        sd = 1
+        for b in range(3):
+            for kk in ks:
+                lines += [f'w {kk} 5 - 10 {sd}', 'states']
+                sd += 1
+            lines += ['close_active', 'states']
+        lines += ['settle', 'res', 'nomodel', 'fault create 0 .index pause:1', 'fault create 1 .index pause:2',
+                  f'd {ks[0]} 9 - 1', 'states', 'res', f'releaselater 1 {rng.choice([450, 500])}', 'wait 150', f'd {ks[1]} 11 - 1',
+                  f'wait {rng.choice([300, 400])}', 'release 2', 'quiesce', 'states', 'clearfaults', 'res', 'wait 2500', 'quiesce',
+                  'res @alldumped', 'alive', 'close', 'open', 'states', 'counts']
+        return lines
     if y < 0.2:
         # a deferred index dump comes due while a dump task is still running (its index file creation is stalled); the
         # next deferred dump must still be carried out
